@@ -32,7 +32,7 @@ BUDGET = {'quick': 110, 'thorough': 1500}
 TIMEOUT = 240
 SHRINK_LISTS = [['ops']]
 EXPECTED_PROBES = ['coeff_checked', 'alter', 'group_alter', 'alter_vin', 'set', 'reset', 'export_json', 'export_xlsx', 'reload',
-                   'time_const_altered', 'residual_effect_checked', 'non_unit_bases', 'export_after_earlier_export']
+                   'time_const_altered', 'shared_time_const_altered', 'residual_effect_checked', 'non_unit_bases', 'export_after_earlier_export']
 RULE = ('plan = (case, seeded base scaling, seeded op history over three lifecycle phases); non-trivial = at least one alteration '
         'followed by an observation (coefficient check, export, residual, time constant); distinct = (case, op-kind sequence, base scaling)')
 ASSUMPTIONS = [
@@ -41,7 +41,8 @@ ASSUMPTIONS = [
     'parameters touched by Model.set are excluded from v == vin*k until reset (set is documented to change the system-base value only)',
 ]
 CASES = ['5bus/pjm5bus.json', 'kundur/kundur_full.xlsx', 'ieee14/ieee14_linetrip.xlsx', 'ieee14/ieee14_esst3a.xlsx', 'smib/SMIB.xlsx',
-         'kundur/kundur_sexs.xlsx', 'wscc9/wscc9.xlsx', 'ieee14/ieee14_gentrip.xlsx', 'kundur/kundur_ieeeg1.xlsx', 'ieee14/ieee14_hygov.xlsx']
+         'kundur/kundur_sexs.xlsx', 'wscc9/wscc9.xlsx', 'ieee14/ieee14_gentrip.xlsx', 'kundur/kundur_ieeeg1.xlsx', 'ieee14/ieee14_hygov.xlsx',
+         'ieee14/ieee14_wt3.xlsx', 'kundur/kundur_reg.xlsx', 'ieee14/ieee14_solar.xlsx']
 KINDS = ('power', 'ipower', 'voltage', 'current', 'z', 'y')
 
 
@@ -324,7 +325,11 @@ def execute(plan):
                             cands.append((name, sn, st.t_const.name))
                 if not cands:
                     continue
-                name, sn, pn = sorted(cands)[int(op['pick'] * len(cands)) % len(cands)]
+                cands = sorted(cands)
+                shared = [c for c in cands if sum(1 for d in cands if d[0] == c[0] and d[2] == c[2]) > 1]
+                if shared and (op['pick'] * 7919) % 1.0 < 0.5:
+                    cands = shared
+                name, sn, pn = cands[int(op['pick'] * len(cands)) % len(cands)]
                 mdl = ss.models[name]
                 uid = 0
                 idx = mdl.idx.v[uid]
@@ -335,11 +340,17 @@ def execute(plan):
                 mdl.alter(pn, idx, new)
                 ref.vin[(name, pn)][uid] = new
                 probes['time_const_altered'] = probes.get('time_const_altered', 0) + 1
-                a = int(mdl.__dict__[sn].a[uid])
                 tv = float(np.asarray(mdl.__dict__[pn].v)[uid])
-                if ss.dae.Tf[a] != tv or ss.TDS.Teye[a, a] != tv:
-                    v.append(V('time_constant', '[%s] %s.%s altered to %r (system base %r): dae.Tf holds %r, TDS.Teye holds %r' %
-                               (where, name, pn, new, tv, ss.dae.Tf[a], ss.TDS.Teye[a, a]), what='not_propagated'))
+                # every state integrated with this time constant (one parameter may serve several states, e.g. REGCA1.Tg)
+                users = [s2 for s2, st2 in mdl.states.items() if st2.t_const is mdl.__dict__[pn]]
+                if len(users) > 1:
+                    probes['shared_time_const_altered'] = probes.get('shared_time_const_altered', 0) + 1
+                for s2 in users:
+                    a = int(mdl.__dict__[s2].a[uid])
+                    if ss.dae.Tf[a] != tv or ss.TDS.Teye[a, a] != tv:
+                        v.append(V('time_constant', '[%s] %s.%s altered to %r (system base %r): for state %s dae.Tf holds %r, TDS.Teye '
+                                   'holds %r' % (where, name, pn, new, tv, s2, ss.dae.Tf[a], ss.TDS.Teye[a, a]), what='not_propagated'))
+                        break
                 ref.check(where, v, probes)
             elif k == 'segment':
                 if not ss.TDS.initialized:
@@ -475,4 +486,9 @@ REGRESSION = [
     {'property': PROP, 'seed': 22, 'case': 'kundur/kundur_full.xlsx', 'scale_bases': True,
      'ops': [{'op': 'check'}, {'op': 'pflow'}, {'op': 'tds_init'}, {'op': 'alter_tconst', 'pick': 0.1, 'factor': 2.0},
              {'op': 'segment', 'tf': 0.2}, {'op': 'export_json'}, {'op': 'reload'}]},
+    # one parameter serving as the time constant of several states (REGCA1.Tg, REPCA1.Tfltr, ...)
+    {'property': PROP, 'seed': 23, 'case': 'ieee14/ieee14_wt3.xlsx', 'scale_bases': False,
+     'ops': [{'op': 'pflow'}, {'op': 'tds_init'}, {'op': 'alter_tconst', 'pick': 0.0, 'factor': 2.0},
+             {'op': 'alter_tconst', 'pick': 0.26, 'factor': 0.5}, {'op': 'alter_tconst', 'pick': 0.52, 'factor': 3.0},
+             {'op': 'alter_tconst', 'pick': 0.77, 'factor': 1.5}, {'op': 'segment', 'tf': 0.2}]},
 ]
